@@ -717,6 +717,10 @@ class Engine(TorchDispatchMode):
         return self.unop(lambda v: xr(v).fin() if isinstance(v, (XR, float)) else True, a, torch.bool)
 
     def op_pow(self, func, ov, a, b):
+        if all((not isinstance(x, SymTensor)) or x.concrete() for x in (a, b)):
+            ra, rb = [x.to_real() if isinstance(x, SymTensor) else x for x in (a, b)]
+            with no_mode():
+                return self._wrap_new(func(ra, rb))
         if isinstance(b, SymTensor):
             if not b.concrete():
                 raise Unsupported("symbolic exponent")
@@ -1749,3 +1753,115 @@ def _op_pad_packed_sequence(self, func, ov, data, batch_sizes, batch_first, padd
 
 Engine.op__pack_padded_sequence = _op_pack_padded_sequence
 Engine.op__pad_packed_sequence = _op_pad_packed_sequence
+
+
+SQRT = z3.Function("SQRT", z3.RealSort(), z3.RealSort())
+
+
+def _op_sqrt(self, func, ov, a):
+    """sqrt as an uninterpreted function with its contract: SQRT(v) >= 0 and SQRT(v)^2 = v for v >= 0 (nan below 0)"""
+    out = []
+    rec = self.notes
+    for v in a.vals():
+        if not is_sym(v):
+            out.append(math.sqrt(v) if v >= 0 else math.nan)
+            continue
+        if isinstance(v, XR):
+            raise Unsupported("sqrt on possibly non-finite cell")
+        x = to_real_expr(v)
+        t = SQRT(x)
+        self.pc.append(z3.Implies(x >= 0, z3.And(t >= 0, t * t == x)))
+        rec.append(("sqrt_arg", x))
+        out.append(XR(False, t, False, x < 0))
+    return SymTensor.from_vals(out, a.shape, a.dtype if isfloat_dtype(a.dtype) else torch.float32)
+
+
+def _op_square(self, func, ov, a):
+    return self.unop(lambda v: s_mul(v, v), a)
+
+
+def _var_cells(self, a, dim, correction, keepdim):
+    if dim is None:
+        dims = list(range(a.dim()))
+    else:
+        dims = [dim] if isinstance(dim, int) else list(dim)
+    mean = self.reduce(a, dims, True, s_add, 0.0, a.dtype)
+    n = a.numel() // max(mean.numel(), 1)
+    mean = self.binop(s_div, mean, float(n), a.dtype)
+    cen = self.binop(s_sub, a, mean, a.dtype)
+    sq = self.unop(lambda v: s_mul(v, v), cen)
+    tot = self.reduce(sq, dims, keepdim, s_add, 0.0, a.dtype)
+    return self.binop(s_div, tot, float(n - (correction or 0)), a.dtype)
+
+
+def _op_var(self, func, ov, a, *args, **kw):
+    dim = args[0] if args and not isinstance(args[0], bool) else kw.get("dim")
+    correction = kw.get("correction", None)
+    if ov == "dim":
+        unbiased = args[1] if len(args) > 1 else kw.get("unbiased", True)
+        correction = 1 if unbiased else 0
+        keepdim = args[2] if len(args) > 2 else kw.get("keepdim", False)
+    elif ov == "correction":
+        keepdim = kw.get("keepdim", False)
+        correction = 1 if correction is None else correction
+    else:
+        unbiased = args[0] if args else kw.get("unbiased", True)
+        correction = 1 if unbiased else 0
+        dim, keepdim = None, False
+    return _var_cells(self, a, dim, correction, keepdim)
+
+
+def _op_std(self, func, ov, a, *args, **kw):
+    return _op_sqrt(self, func, ov, _op_var(self, func, ov, a, *args, **kw))
+
+
+def _op_convolution(self, func, ov, x, w, bias, stride, padding, dilation, transposed, output_padding, groups):
+    """1-D convolution (cross-correlation) with unit stride/dilation, one group"""
+    if transposed or groups != 1 or list(stride) != [1] or list(dilation) != [1] or x.dim() != 3:
+        raise Unsupported("convolution configuration")
+    p = padding[0] if not isinstance(padding, int) else padding
+    X, Wt = x.nested(), w.nested()
+    B, Cin, L = x.shape
+    Cout, Cin2, K = w.shape
+    Lout = L + 2 * p - K + 1
+    bv = bias.vals() if bias is not None else [0.0] * Cout
+    out = []
+    for b in range(B):
+        for co in range(Cout):
+            for t in range(Lout):
+                acc = bv[co]
+                for ci in range(Cin):
+                    for k in range(K):
+                        src = t + k - p
+                        if 0 <= src < L:
+                            acc = s_add(acc, s_mul(Wt[co][ci][k], X[b][ci][src]))
+                out.append(acc)
+    return SymTensor.from_vals(out, (B, Cout, Lout), x.dtype)
+
+
+def _op_matmul(self, func, ov, a, b):
+    if a.dim() == 2 and b.dim() == 2:
+        return self.op_mm(func, ov, a, b)
+    if a.dim() == 1 and b.dim() == 1:
+        return self.op_dot(func, ov, a, b)
+    if a.dim() == 2 and b.dim() == 1:
+        return self.op_mv(func, ov, a, b)
+    if a.dim() == 1 and b.dim() == 2:
+        r = self.op_mm(func, ov, SymTensor(a.idx.reshape(1, -1), a.dtype), b)
+        return SymTensor(r.idx.reshape(-1), r.dtype)
+    # batched: broadcast leading dims
+    with no_mode():
+        lead = torch.broadcast_shapes(tuple(a.shape[:-2]), tuple(b.shape[:-2]))
+        ai = a.idx.expand(tuple(lead) + tuple(a.shape[-2:])).reshape((-1,) + tuple(a.shape[-2:]))
+        bi = b.idx.expand(tuple(lead) + tuple(b.shape[-2:])).reshape((-1,) + tuple(b.shape[-2:]))
+    r = self.op_bmm(func, ov, SymTensor(ai, a.dtype), SymTensor(bi, b.dtype))
+    with no_mode():
+        return SymTensor(r.idx.reshape(tuple(lead) + (a.shape[-2], b.shape[-1])), r.dtype)
+
+
+Engine.op_sqrt = _op_sqrt
+Engine.op_square = _op_square
+Engine.op_var = _op_var
+Engine.op_std = _op_std
+Engine.op_convolution = _op_convolution
+Engine.op_matmul = _op_matmul
